@@ -13,6 +13,7 @@ import EV.Proofs.JsonText
 import EV.Proofs.IssuanceBridge
 import EV.Proofs.PeggedAsset
 import EV.Proofs.PeggedAssetKernel
+import EV.Proofs.BridgeIssuanceBlind
 namespace EV.Props.C11
 open EV EV.Codec EV.Issuance
 
@@ -576,5 +577,267 @@ example : (display liquidBtc).length = 64 ∧ fromStr (display liquidBtc) = .ok 
   ⟨by decide, fromStr_display _ const_lengths.1⟩
 
 end Pegged
+
+/-! ### bridge to C05/C04: the generator of an issuance pseudo-input is the generator of `issuance_ids`
+
+  `Transaction::verify_tx_amt_proofs` (src/blind.rs; model `EV.Blind.verify`, property C05) takes the two ids
+  of an input as parameters of the model (`Blind.TxIn.assetId`, `.tokenId`).  The Rust code instantiates
+  them with `let (asset_id, token_id) = inp.issuance_ids();` and feeds `asset.into_tag()` to
+  `Generator::new_unblinded`.  `blindIn H pt t` (EV.Proofs.BridgeIssuanceBlind) is that instantiation for
+  the consensus input `t`; `pt` reads the commitment bytes of a confidential amount as a point.
+  Helper lemmas: EV.Proofs.BridgeIssuanceBlind. -/
+section BridgeBlind
+open EV.Proofs.BridgeIssuanceBlind
+variable {Pt RP SP : Type}
+
+/-- The Blind view of a consensus input always exists (`issuance_ids` never panics: `ids_no_panic`), its
+    two ids ARE `TxIn::issuance_ids()`, its amounts are the issuance amounts, and `has_issuance` of the two
+    models (C05's `Blind.TxIn.hasIssuance`, C01's `TxIn.hasIssuance`) agree. -/
+theorem bridge_blind_view (pt : Bytes → Pt) (t : TxIn) :
+    blindIn? H pt t = some (blindIn H pt t) ∧
+    t.issuanceIds H = some ((blindIn H pt t).assetId, (blindIn H pt t).tokenId) ∧
+    (blindIn H pt t).amount = cvalue pt t.assetIssuance.amount ∧
+    (blindIn H pt t).keys = cvalue pt t.assetIssuance.inflationKeys ∧
+    (blindIn H pt t).hasIssuance = t.hasIssuance :=
+  ⟨blindIn?_eq H pt t, ids_eq H t, rfl, rfl, hasIssuance_blindIn H pt t⟩
+
+/-- **The pseudo-inputs of an issuance input are built on the generators of `issuance_ids`.**
+    With `(a, tk) = t.issuance_ids()`: the verifier refuses the input (`IssuanceTransactionInput`) exactly
+    when an amount is an explicit 0; otherwise its (generator, commitment) pairs are
+    `(gen a, commitment of the amount)` — present iff the amount is non-null, an explicit `v` committed as
+    `commitUnblinded v (gen a)` — followed by `(gen tk, commitment of the inflation keys)` likewise
+    (`issTerm`); hence the domain entries are `gen a` and/or `gen tk`. -/
+theorem bridge_issuance_pairs (V : Blind.VPrims Bytes Pt RP SP) (pt : Bytes → Pt) (t : TxIn) (a tk : Bytes)
+    (hids : t.issuanceIds H = some (a, tk)) :
+    (Blind.issuancePairs V (blindIn H pt t) = none ↔
+      (t.assetIssuance.amount = .explicit 0 ∨ t.assetIssuance.inflationKeys = .explicit 0)) ∧
+    (t.assetIssuance.amount ≠ .explicit 0 → t.assetIssuance.inflationKeys ≠ .explicit 0 →
+      Blind.issuancePairs V (blindIn H pt t) =
+        some (issTerm V pt a t.assetIssuance.amount ++ issTerm V pt tk t.assetIssuance.inflationKeys) ∧
+      (issTerm V pt a t.assetIssuance.amount ++ issTerm V pt tk t.assetIssuance.inflationKeys).map Prod.fst =
+        (if t.assetIssuance.amount.isNull then [] else [V.genUnblinded a]) ++
+        (if t.assetIssuance.inflationKeys.isNull then [] else [V.genUnblinded tk])) := by
+  obtain ⟨h1, h2⟩ := ids_of_some H t a tk hids
+  refine ⟨issuancePairs_blindIn_none_iff H pt V t, fun ha hk => ⟨?_, ?_⟩⟩
+  · rw [issuancePairs_blindIn H pt V t ha hk, issTerms, h1, h2]
+  · rw [List.map_append, issTerm_fst, issTerm_fst]
+
+/-- what `issTerm` is, case by case -/
+theorem bridge_issTerm (V : Blind.VPrims Bytes Pt RP SP) (pt : Bytes → Pt) (id : Bytes) (n : Nat) (c : Bytes) :
+    issTerm V pt id .null = [] ∧
+    issTerm V pt id (.explicit n) = [(V.genUnblinded id, V.commitUnblinded n (V.genUnblinded id))] ∧
+    issTerm V pt id (.conf c) = [(V.genUnblinded id, pt c)] := ⟨rfl, rfl, rfl⟩
+
+/-- **The surjection domain and the input side of the tally of a transaction, in terms of C11.**
+    For acceptable inputs (`InsOk`: spent outputs with asset and non-zero value, no explicit-0 issuance
+    amount — what `verify` demands anyway) the domain `verify` checks every surjection proof against is,
+    per input, the spent output's generator followed by the generators of `issuedIds` (the asset id of
+    `issuance_ids()` iff there is an issuance amount, then its token id iff there are inflation keys); the
+    commitments are, per input, the spent output's, then those of the two issuance amounts. -/
+theorem bridge_domain (V : Blind.VPrims Bytes Pt RP SP) (pt : Bytes → Pt) (ins : List TxIn)
+    (utxos : List (Blind.TxOut Bytes Pt RP SP)) (h : InsOk ins utxos) :
+    Blind.domainOf V (ins.map (blindIn H pt)) utxos = idsDomain V H ins utxos ∧
+    Blind.inCommitsOf V (ins.map (blindIn H pt)) utxos = idsCommits V H pt ins utxos ∧
+    Blind.pairsOf V (ins.map (blindIn H pt)) utxos = idsPairs V H pt ins utxos :=
+  ⟨domainOf_blindIn H pt V ins utxos h, inCommitsOf_blindIn H pt V ins utxos h, pairsOf_blindIn H pt V ins utxos h⟩
+
+/-- the shape of `idsDomain` / `idsCommits` / `issuedIds` (definitional) -/
+theorem bridge_domain_cons (V : Blind.VPrims Bytes Pt RP SP) (pt : Bytes → Pt) (t : TxIn) (ts : List TxIn)
+    (u : Blind.TxOut Bytes Pt RP SP) (us : List (Blind.TxOut Bytes Pt RP SP)) :
+    idsDomain V H (t :: ts) (u :: us) =
+      (Blind.assetGen V u.asset).toList ++ (issuedIds H t).map V.genUnblinded ++ idsDomain V H ts us ∧
+    idsCommits V H pt (t :: ts) (u :: us) =
+      (Blind.outCommit? V u).toList ++
+        (issTerm V pt (blindIn H pt t).assetId t.assetIssuance.amount ++
+         issTerm V pt (blindIn H pt t).tokenId t.assetIssuance.inflationKeys).map Prod.snd ++
+        idsCommits V H pt ts us ∧
+    issuedIds H t =
+      (if t.assetIssuance.amount.isNull then [] else [(blindIn H pt t).assetId]) ++
+      (if t.assetIssuance.inflationKeys.isNull then [] else [(blindIn H pt t).tokenId]) :=
+  ⟨rfl, rfl, rfl⟩
+
+/-- **Composition with `ids_formula`: the generators of a NEW issuance in closed form.**  The asset
+    entry of the domain is `gen (comb (comb (sha256d (txid ‖ vout_le32)) contract_hash) 0^32)`, the token
+    entry `gen (comb (same entropy) (k ‖ 0^31))`, `k = 1` for an explicit and `2` for a confidential
+    issuance amount — so the token generator differs between the two. -/
+theorem bridge_generator_new_issuance (V : Blind.VPrims Bytes Pt RP SP) (pt : Bytes → Pt) (t : TxIn)
+    (h : t.assetIssuance.nonce = Issuance.zero32) :
+    V.genUnblinded (blindIn H pt t).assetId =
+      V.genUnblinded (H.comb (H.comb (H.sha256d (t.previousOutput.txid ++ encLe 4 t.previousOutput.vout))
+        t.assetIssuance.entropy) (List.replicate 32 0)) ∧
+    V.genUnblinded (blindIn H pt t).tokenId =
+      V.genUnblinded (H.comb (H.comb (H.sha256d (t.previousOutput.txid ++ encLe 4 t.previousOutput.vout))
+        t.assetIssuance.entropy) ((if t.assetIssuance.amount.isConf then 2 else 1) :: List.replicate 31 0)) := by
+  have h1 := ids_eq H t
+  rw [ids_formula H t h] at h1
+  simp only [Option.some.injEq, Prod.mk.injEq] at h1
+  exact ⟨congrArg V.genUnblinded h1.1.symm, congrArg V.genUnblinded h1.2.symm⟩
+
+/-- **Composition with `ids_formula_reissuance`: a REISSUANCE** (non-zero blinding nonce) contributes
+    `gen (comb entropy 0^32)` — the outpoint it spends plays no role. -/
+theorem bridge_generator_reissuance (V : Blind.VPrims Bytes Pt RP SP) (pt : Bytes → Pt) (t : TxIn)
+    (h : t.assetIssuance.nonce ≠ Issuance.zero32) :
+    V.genUnblinded (blindIn H pt t).assetId =
+      V.genUnblinded (H.comb t.assetIssuance.entropy (List.replicate 32 0)) ∧
+    V.genUnblinded (blindIn H pt t).tokenId =
+      V.genUnblinded (H.comb t.assetIssuance.entropy
+        ((if t.assetIssuance.amount.isConf then 2 else 1) :: List.replicate 31 0)) := by
+  have h1 := ids_eq H t
+  rw [ids_formula_reissuance H t h] at h1
+  simp only [Option.some.injEq, Prod.mk.injEq] at h1
+  exact ⟨congrArg V.genUnblinded h1.1.symm, congrArg V.genUnblinded h1.2.symm⟩
+
+/-- **A reissuance input contributes the SAME asset generator as the issuance whose entropy it quotes**:
+    `i` a new issuance, `r` a reissuance (of any outpoint) whose `asset_entropy` field is the entropy
+    `AssetId::generate_asset_entropy` derives for `i`.  The token generators coincide as well when both
+    issuance amounts are blinded or both are not. -/
+theorem bridge_reissuance_same_generator (V : Blind.VPrims Bytes Pt RP SP) (pt : Bytes → Pt) (i r : TxIn)
+    (hi : i.assetIssuance.nonce = Issuance.zero32) (hr : r.assetIssuance.nonce ≠ Issuance.zero32)
+    (he : generateAssetEntropy H i.previousOutput i.assetIssuance.entropy = some r.assetIssuance.entropy) :
+    V.genUnblinded (blindIn H pt r).assetId = V.genUnblinded (blindIn H pt i).assetId ∧
+    (r.assetIssuance.amount.isConf = i.assetIssuance.amount.isConf →
+      V.genUnblinded (blindIn H pt r).tokenId = V.genUnblinded (blindIn H pt i).tokenId) :=
+  ⟨congrArg V.genUnblinded (reissuance_same_asset H i r hi hr he),
+   fun hf => congrArg V.genUnblinded (reissuance_same_token H i r hi hr he hf)⟩
+
+/-- **What equal ids of two issuance inputs mean** (`asset_id_commit`, `token_commit`,
+    `asset_token_distinct`, `ids_commit_txin` through the bridge).  `e x` is the entropy `issuance_ids`
+    uses for `x` (derived for a new issuance, quoted for a reissuance).  Same asset id ⇒ same entropy; same
+    token id ⇒ same entropy and same blinded flag of the issuance amount; an asset id is never a token id;
+    a reissuance with the asset id of a new issuance quotes its entropy — each time unless a collision
+    of the compression function is exhibited. -/
+theorem bridge_same_ids (a b : TxIn) :
+    let e := fun (x : TxIn) => EV.Proofs.Issuance.entropyOf H x.previousOutput x.assetIssuance.nonce x.assetIssuance.entropy
+    ((blindIn H (fun x => x) a).assetId = (blindIn H (fun x => x) b).assetId → e a = e b ∨ Collision2 H.comb) ∧
+    ((blindIn H (fun x => x) a).tokenId = (blindIn H (fun x => x) b).tokenId →
+      (e a = e b ∧ a.assetIssuance.amount.isConf = b.assetIssuance.amount.isConf) ∨ Collision2 H.comb) ∧
+    ((blindIn H (fun x => x) a).assetId = (blindIn H (fun x => x) b).tokenId → Collision2 H.comb) ∧
+    (a.assetIssuance.nonce = Issuance.zero32 → b.assetIssuance.nonce ≠ Issuance.zero32 →
+      (blindIn H (fun x => x) b).assetId = (blindIn H (fun x => x) a).assetId →
+      generateAssetEntropy H a.previousOutput a.assetIssuance.entropy = some b.assetIssuance.entropy ∨
+        Collision2 H.comb) :=
+  ⟨same_asset_same_entropy H a b, same_token_same_entropy_flag H a b, asset_ne_token_ids H a b,
+   fun ha hb h => same_asset_quotes_entropy H a b ha hb h⟩
+
+/-- two NEW issuances with the same domain generator id spend the same outpoint with the same contract
+    hash (`ids_commit_txin` read on the Blind views) -/
+theorem bridge_same_asset_new (pt : Bytes → Pt) (a b : TxIn) (ha : a.previousOutput.wf) (hb : b.previousOutput.wf)
+    (hna : a.assetIssuance.nonce = Issuance.zero32) (hnb : b.assetIssuance.nonce = Issuance.zero32)
+    (h : (blindIn H pt a).assetId = (blindIn H pt b).assetId) :
+    (a.previousOutput = b.previousOutput ∧ a.assetIssuance.entropy = b.assetIssuance.entropy) ∨
+      Collision H.sha256d ∨ Collision2 H.comb := by
+  apply ids_commit_txin H a b ha hb hna hnb
+  rw [ids_eq H a, ids_eq H b]
+  exact congrArg some h
+
+/-- **`verify_ok_iff` of C05 about a consensus input list**: `verify_tx_amt_proofs` accepts exactly when
+    the lengths match, the inputs are acceptable, every output is acceptable against the domain made of
+    the spent outputs' generators and the generators of the C11 ids (`idsDomain`), and the tally accepts
+    the commitments to those generators (`idsCommits`) against the output commitments. -/
+theorem bridge_verify_ok_iff (V : Blind.VPrims Bytes Pt RP SP) (pt : Bytes → Pt) (ins : List TxIn)
+    (outs utxos : List (Blind.TxOut Bytes Pt RP SP)) :
+    Blind.verify V (ins.map (blindIn H pt)) outs utxos = .ok ↔
+      utxos.length = ins.length ∧ InsOk ins utxos ∧
+      (∀ o ∈ outs, Blind.OutOk V (idsDomain V H ins utxos) o) ∧
+      V.sumEqual (idsCommits V H pt ins utxos) (Blind.outCommitsOf V outs) = true :=
+  verify_ok_iff_ids H pt V ins outs utxos
+
+/-- **`tamper_issuance` of C05 about a consensus input**: changing an explicit issuance amount `v` into
+    `v'` (`setAmount`) — the two transactions do not both verify; the torsion hypothesis is about the
+    tag of the asset id `a` that `issuance_ids()` derives for the input (other hypotheses as in C05). -/
+theorem bridge_tamper_issuance {R M : Type} [CommRing R] [AddCommGroup M] [Module R M]
+    (cv : Blind.Curve R M Bytes) (V : Blind.VPrims Bytes M RP SP) (hV : Blind.AlgV cv V) (pt : Bytes → M)
+    (outs : List (Blind.TxOut Bytes M RP SP)) (ipre ipost : List TxIn) (t : TxIn)
+    (upre upost : List (Blind.TxOut Bytes M RP SP)) (u : Blind.TxOut Bytes M RP SP)
+    (hl : upre.length = ipre.length)
+    (v v' : Nat) (B : Nat) (hamt : t.assetIssuance.amount = .explicit v) (hne : v ≠ v') (hv0 : v ≠ 0)
+    (hv0' : v' ≠ 0) (hvB : v < B) (hvB' : v' < B)
+    (a tk : Bytes) (hids : t.issuanceIds H = some (a, tk))
+    (hT : Blind.NoTorsion R (cv.tag a) B) (hkeys : t.assetIssuance.inflationKeys ≠ .explicit 0) :
+    ¬ (Blind.verify V ((ipre ++ t :: ipost).map (blindIn H pt)) outs (upre ++ u :: upost) = .ok ∧
+       Blind.verify V ((ipre ++ setAmount t (.explicit v') :: ipost).map (blindIn H pt)) outs
+         (upre ++ u :: upost) = .ok) :=
+  tamper_issuance_ids cv V hV H pt outs ipre ipost t upre upost u hl v v' B hamt hne hv0 hv0' hvB hvB' a tk hids hT hkeys
+
+/-- … for a NEW issuance with the tag written out (`ids_formula`): no natural below the bound annihilates
+    the tag of `comb (comb (sha256d (txid ‖ vout_le32)) contract_hash) 0^32` -/
+theorem bridge_tamper_new_issuance {R M : Type} [CommRing R] [AddCommGroup M] [Module R M]
+    (cv : Blind.Curve R M Bytes) (V : Blind.VPrims Bytes M RP SP) (hV : Blind.AlgV cv V) (pt : Bytes → M)
+    (outs : List (Blind.TxOut Bytes M RP SP)) (ipre ipost : List TxIn) (t : TxIn)
+    (upre upost : List (Blind.TxOut Bytes M RP SP)) (u : Blind.TxOut Bytes M RP SP)
+    (hl : upre.length = ipre.length)
+    (v v' : Nat) (B : Nat) (hamt : t.assetIssuance.amount = .explicit v) (hne : v ≠ v') (hv0 : v ≠ 0)
+    (hv0' : v' ≠ 0) (hvB : v < B) (hvB' : v' < B)
+    (hnonce : t.assetIssuance.nonce = Issuance.zero32)
+    (hT : Blind.NoTorsion R (cv.tag (H.comb (H.comb (H.sha256d (t.previousOutput.txid ++ encLe 4 t.previousOutput.vout))
+      t.assetIssuance.entropy) (List.replicate 32 0))) B)
+    (hkeys : t.assetIssuance.inflationKeys ≠ .explicit 0) :
+    ¬ (Blind.verify V ((ipre ++ t :: ipost).map (blindIn H pt)) outs (upre ++ u :: upost) = .ok ∧
+       Blind.verify V ((ipre ++ setAmount t (.explicit v') :: ipost).map (blindIn H pt)) outs
+         (upre ++ u :: upost) = .ok) :=
+  tamper_issuance_ids cv V hV H pt outs ipre ipost t upre upost u hl v v' B hamt hne hv0 hv0' hvB hvB' _ _
+    (ids_formula H t hnonce) hT hkeys
+
+/-- **C09**: `PartiallySignedTransaction::surjection_inputs` (src/pset/mod.rs) appends, for an input with an
+    issuance, pseudo-inputs for `pset::Input::issuance_ids()` — parameters (`Inp.issued`) of the C09 model
+    `EV.PsetBlind`.  For the PSET inputs built from canonical consensus inputs (`Input::from_txin`,
+    `ids_agree`) they are the ids of `TxIn::issuance_ids()` — the same list `issuedIds` whose generators
+    `verify` uses (`bridge_domain_cons`); `code` names asset ids as the `Nat`s of that model. -/
+theorem bridge_pset_domain (code : Bytes → Nat) (l : List (TxIn × Bool × Option Nat))
+    (h : ∀ x ∈ l, Canonical x.1) :
+    EV.PsetBlind.issuedAssets (l.map (fun x => psetInp H code x.2.1 x.2.2 (IssPsetInput.fromTxin x.1))) =
+      l.flatMap (fun x => (issuedIds H x.1).map code) ∧
+    ∀ x ∈ l, psetInp H code x.2.1 x.2.2 (IssPsetInput.fromTxin x.1) =
+      { hasUtxo := x.2.1, hasIssuance := x.1.hasIssuance, blindedIssuance := x.2.2,
+        issued := (issuedIds H x.1).map code } :=
+  ⟨issuedAssets_fromTxin H code l (fun x hx => h x hx),
+   fun x hx => psetInp_fromTxin H code _ _ _ (h x hx).1 (h x hx).2⟩
+
+/-! #### the hypotheses are satisfiable -/
+
+/-- a new issuance of 1 unit (no inflation keys) spending output 5, and a spent output of 10 units:
+    acceptable inputs (`bridge_domain`, `bridge_issuance_pairs`, `bridge_generator_new_issuance`) -/
+example : InsOk (Pt := Unit) (RP := Unit) (SP := Unit)
+    [⟨⟨List.replicate 32 7, 5⟩, true, [], 0, ⟨Issuance.zero32, List.replicate 32 9, .explicit 1, .null⟩, TxInWitness.empty⟩]
+    [⟨.explicit [1], .explicit 10, .null, [1], none, none⟩] := by
+  intro p hp
+  simp only [List.zip_cons_cons, List.zip_nil_right, List.mem_singleton] at hp
+  subst hp
+  exact ⟨⟨by simp, by simp, by simp⟩, by decide, by decide⟩
+example : ∃ (t : TxIn) (a tk : Bytes), t.issuanceIds H = some (a, tk) ∧
+    t.assetIssuance.amount ≠ .explicit 0 ∧ t.assetIssuance.inflationKeys ≠ .explicit 0 ∧
+    t.assetIssuance.nonce = Issuance.zero32 ∧ t.previousOutput.wf :=
+  ⟨⟨⟨List.replicate 32 7, 5⟩, true, [], 0, ⟨Issuance.zero32, List.replicate 32 9, .explicit 1, .null⟩, TxInWitness.empty⟩,
+   _, _, ids_eq H _, by decide, by decide, rfl, ⟨by decide, by decide⟩⟩
+/-- a reissuance (non-zero nonce) quoting the entropy of a new issuance
+    (`bridge_generator_reissuance`, `bridge_reissuance_same_generator`), for every `H` -/
+example : ∃ i r : TxIn, i.assetIssuance.nonce = Issuance.zero32 ∧ r.assetIssuance.nonce ≠ Issuance.zero32 ∧
+    generateAssetEntropy H i.previousOutput i.assetIssuance.entropy = some r.assetIssuance.entropy ∧
+    r.assetIssuance.amount.isConf = i.assetIssuance.amount.isConf ∧ r.previousOutput ≠ i.previousOutput :=
+  ⟨⟨⟨List.replicate 32 7, 5⟩, false, [], 0, ⟨Issuance.zero32, List.replicate 32 9, .explicit 1, .explicit 1⟩, TxInWitness.empty⟩,
+   ⟨⟨List.replicate 32 8, 0⟩, false, [], 0,
+     ⟨List.replicate 32 1, H.comb (H.sha256d (List.replicate 32 7 ++ encLe 4 5)) (List.replicate 32 9), .explicit 3, .null⟩,
+     TxInWitness.empty⟩,
+   rfl, fun h => absurd (congrArg List.head? h) (show ¬ (List.replicate 32 (1 : UInt8)).head? = Issuance.zero32.head? by decide), entropy_formula H _ _, rfl,
+   fun h => absurd (congrArg OutPoint.vout h) (show ¬ (0 : Nat) = 5 by decide)⟩
+/-- `bridge_tamper_issuance` / `bridge_tamper_new_issuance`: scalars `ℤ`, points the free module on
+    {G} ∪ {tag a | a : Bytes} (`Inst.cvB`, `Inst.VB`), amounts 1 and 2 below 2^64 -/
+example : ∃ (t : TxIn) (v v' B : Nat) (a tk : Bytes),
+    t.assetIssuance.amount = .explicit v ∧ v ≠ v' ∧ v ≠ 0 ∧ v' ≠ 0 ∧ v < B ∧ v' < B ∧
+    t.issuanceIds H = some (a, tk) ∧ t.assetIssuance.nonce = Issuance.zero32 ∧
+    Blind.NoTorsion Int (Inst.cvB.tag a) B ∧ t.assetIssuance.inflationKeys ≠ .explicit 0 ∧
+    Blind.AlgV Inst.cvB Inst.VB :=
+  ⟨⟨⟨List.replicate 32 7, 5⟩, true, [], 0, ⟨Issuance.zero32, List.replicate 32 9, .explicit 1, .null⟩, TxInWitness.empty⟩,
+   1, 2, 2 ^ 64, _, _, rfl, by decide, by decide, by decide, by decide, by decide, ids_eq H _, rfl,
+   Inst.noTorsion_tagB _ _, by decide, Inst.algVB⟩
+/-- `bridge_pset_domain`: the pegin + issuance input at index 5 is canonical (see above) -/
+example : ∀ x ∈ [((⟨⟨List.replicate 32 7, 5⟩, true, [], 0, ⟨Issuance.zero32, List.replicate 32 9, .explicit 1, .null⟩, TxInWitness.empty⟩ : TxIn), true, some 0)],
+    Canonical x.1 := by
+  intro x hx
+  simp only [List.mem_singleton] at hx
+  subst hx
+  exact ⟨Or.inl ⟨by decide, by decide⟩, Or.inl (by decide)⟩
+
+end BridgeBlind
 
 end EV.Props.C11
